@@ -1234,10 +1234,16 @@ theorem unpack_singleton_one (v : Val) (u : Bool) :
     unpackSingleton [v] (([v] : List Val).length == 1) u = if u then .scalar v else .list [v] := by
   cases u <;> rfl
 
+/-- what the unpacking spellings must show given the per-variant list -/
+def unpackRead (vals : List Val) : Read :=
+  match vals with
+  | [v] => .scalar v
+  | _ => .list vals
+
 /-- the spellings agree: the unpacked read is the head of the list read for a singleton and IS the list read otherwise -/
 theorem getValue_spellings_agree (h : Heap) (m : Ref) (name : String) (vals : List Val)
     (hl : getValue h m name false = .ok (.list vals)) :
-    getValue h m name true = .ok (match vals with | [v] => .scalar v | _ => .list vals) := by
+    getValue h m name true = .ok (unpackRead vals) := by
   unfold getValue at hl ⊢
   cases hm : getModel h m with
   | error e => simp [hm] at hl
@@ -1270,7 +1276,7 @@ theorem getValue_spellings_agree (h : Heap) (m : Ref) (name : String) (vals : Li
           unfold unpackSingleton at hl
           simpa using hl
         subst hvals
-        unfold unpackSingleton
+        unfold unpackSingleton unpackRead
         rw [← hll]
         match l with
         | [] => rfl
